@@ -48,6 +48,9 @@ CLAIMED['C17'] = ('ir2c+irsym', 'bounded model checking (CBMC: kissat/cadical/mi
 CLAIMED['C08'] = ('ir2c+irsym', 'CBMC on the clang IR translated to C (IEEE floats bit-blasted with a correctly rounded sqrtf; uninterpreted FP operations for the structural skeleton) and engine C (exact reals) on the real body of length()',
     'length()==0 exactly for the zero vector and finite/non-negative otherwise for all finite components up to 2^62 (squares that underflow included) on real IEEE semantics; length2()==dot bit for bit; every member of the normalize family divides each component by one shared length() (division, not reciprocal), with the documented zero-vector behaviour and domain_error; over the reals, on EVERY path of the real body (sqrt branch and the lengthTiny scaling branch) length() is the non-negative l with l^2 == sum of squares, and the normalised vector is v/|v| with unit length.',
     'Trusted: clang-14, vf/ll2c.py, vf/irsym.py (validated each run), CBMC sqrtf model, z3. "Within a few ulps" and the direct IEEE no-NaN/inf proof of normalize are outside (stated lemma in DESIGN).', '3/C08')
+CLAIMED['C07'] = ('ir2c', 'CBMC (z3 / kissat) equivalence checking of the two textual copies of each checked/unchecked pair in the clang IR translated to C, FP arithmetic abstracted identically on both sides as uninterpreted functions',
+    'For every input bit pattern: the normalize family (Vec2/3/4), Vec3(Vec4[,InfException]), inverse()/inverse(bool)/invert for Matrix22/33 (44 and Gauss-Jordan pairs in the thorough tier), in-place vs value-returning inversion, and six Frustum ...Exc methods: whenever the checked form returns its output equals the unchecked form bit for bit, singExc=false never throws, the thrown type is the documented one, and inverse(true) throws only where the unchecked form returns the identity.',
+    'Trusted: clang-14, vf/ll2c.py (validated each run), CBMC, z3/kissat. Abstraction: + - * / sqrt are uninterpreted (commutative where IEEE is) on BOTH sides, comparisons/abs/guards are exact - decides "same operations under the same guards", not rounding. Guard tightness (factor four of max) and decomposition exc flags are outside.', '3/C07')
 NOT_YET = 'check not built yet in this working session (planned in DESIGN.md section 3); no claim is made'
 NA = {}
 
